@@ -1,0 +1,26 @@
+// SPDX-FileCopyrightText: 2026 The Pion community <https://pion.ly>
+// SPDX-License-Identifier: MIT
+
+//go:build verif
+
+package ice
+
+import "sync"
+
+// verifContactTakers maps *Agent -> func(contact func()). A verification harness
+// that registers itself for an agent receives the agent's real per-tick
+// connectivity-check closure and drives it itself; the wall-clock timer loop of
+// that agent ends. Agents without a registration behave exactly as without the tag.
+var verifContactTakers sync.Map //nolint:gochecknoglobals
+
+func verifTakeContact(a *Agent, contact func()) bool {
+	if f, ok := verifContactTakers.Load(a); ok {
+		if take, ok := f.(func(func())); ok {
+			take(contact)
+
+			return true
+		}
+	}
+
+	return false
+}
